@@ -203,3 +203,15 @@ func singleDefs(info *types.Info, n ast.Node) map[types.Object]ast.Expr {
 	}
 	return defs
 }
+
+// numSign is constant.Sign for numeric constants and 2 for anything else (constant.Sign panics on strings and booleans).
+func numSign(v constant.Value) int {
+	if v == nil {
+		return 2
+	}
+	switch v.Kind() {
+	case constant.Int, constant.Float:
+		return constant.Sign(v)
+	}
+	return 2
+}
